@@ -19,7 +19,9 @@ where
     for (_, n) in g.iter() {
         nodes.push((n.key().clone(), n.value().clone()));
 
-        for Edge(u, v, e) in n.iter() {
+        // Every edge is stored at both endpoints; emit it only from the node
+        // that created it, otherwise a round trip doubles all edges.
+        for Edge(u, v, e) in n.iter().take(n.len_outbound()) {
             edges.push((u.key().clone(), v.key().clone(), e));
         }
     }
